@@ -257,7 +257,9 @@ def gen_scenario(rng, prof=None, force_selflock=None):
     pwm = None
     if rng.random() < p['p_pwm_preset']:
         pwm = rng.choice([1, 0, -1, 0.5, -0.3, sig(rng.uniform(-1, 1), 3)])
-    spec['ic'] = {'pos': pos, 'speed': spd, 'pwm': pwm}
+    spec['ic'] = {'pos': pos, 'speed': spd, 'pwm': pwm, 'numpy': rng.random() < p.get('p_numpy', 0.12)}
+    if rng.random() < p.get('p_numpy', 0.12):
+        load['numpy'] = True
     spec['rules'] = []
     spec['stop'] = None
     spec['prior_design'] = rng.randrange(1 << 30) if rng.random() < 0.3 else None     # relations declared differently first (sim/build.py prior_design)
@@ -286,6 +288,14 @@ def gen_scenario(rng, prof=None, force_selflock=None):
         if rng.random() < 0.5:
             sched.append({'op': 'newsolver'})
         sched.append({'op': 'run', 'dt': dt, 'T': mulq(dt, rng.randint(3, n))})
+    if rng.random() < p.get('p_badrun', 0.12):
+        # calls of Solver.run rejected at the argument checks, anywhere in the schedule
+        for _ in range(rng.randint(1, 2)):
+            how = rng.choice(['types', 'dt_ge_T', 'dt_ge_T', 'control_type', 'stop_type'])
+            sched.insert(rng.randrange(1, len(sched) + 1), {'op': 'badrun', 'how': how, 'equal': rng.random() < 0.5})
+    if rng.random() < p.get('p_forget_load', 0.05):
+        # the load function is forgotten at first: the first call is rejected ("no external torque"), then the load is assigned
+        spec['forget_load'] = True          # handled by sim/build.py right after the solver exists
     if rng.random() < p.get('p_inplace_args', 0.15):
         # the step / duration objects handed to run() went through an in-place conversion first (objects with a history)
         for op_ in sched:
